@@ -41,7 +41,7 @@ def cfg_hook(rng, cfg, fam, i):
 
 def gen_cases(tier, seed):
     fams = ["stripe-stress", "buffer-stress", "lut-stress", "alias-stress", "exact-chain", "exact-dag", "cpu-mix", "approx-tail", "exact-chain-big", "stripe-stress", "buffer-stress", "lut-stress", "stripe-resize", "shared-weights", "buffer-stress", "mixed-width", "cpu-mix"]
-    return campaign.gen_cases(tier, seed, 3, 420, 12000, families=fams, cfg_hook=cfg_hook, extra=[("shape-ops", 24, 500), ("approx-tail2", 12, 300), ("grouped-conv", 8, 200)])
+    return campaign.gen_cases(tier, seed, 3, 420, 12000, families=fams, cfg_hook=cfg_hook, extra=[("shape-ops", 24, 500), ("approx-tail2", 12, 300), ("grouped-conv", 8, 200), ("lstm", 24, 400)])
 
 
 def interval(off, size):
@@ -216,6 +216,13 @@ def run_case(case):
                         v_ = viol.pop(m)
                         v_["mech"] = m + ":" + c01.PACK_FEATURE
                         viol[v_["mech"]] = v_
+        if case["family"] == "lstm":
+            # findings about the LSTM unrolling are keyed with the operator
+            counters["lstm_networks"] = 1
+            for m_ in list(viol):
+                v_ = viol.pop(m_)
+                v_["mech"] = m_ + ":lstm"
+                viol[v_["mech"]] = v_
     finally:
         c.cleanup()
     return {"violations": list(viol.values()), "counters": counters,
